@@ -3,7 +3,7 @@ use rusty_variant::Variant;
 
 use crate::RuntimeError;
 use crate::interpreter::interpreter_trait::InterpreterTrait;
-use crate::interpreter::variant_casts::VariantCasts;
+use crate::interpreter::variant_casts::{VariantCasts, integer_from_size};
 
 pub fn run<S: InterpreterTrait>(interpreter: &mut S) -> Result<(), RuntimeError> {
     let a: &Variant = &interpreter.context()[0];
@@ -35,7 +35,7 @@ fn do_instr(start: usize, hay: &str, needle: &str) -> Result<i32, RuntimeError> 
         let needle = needle.as_bytes();
         while i + needle.len() <= hay.len() {
             if hay.get(i..(i + needle.len())) == Some(needle) {
-                return Ok((i as i32) + 1);
+                return integer_from_size(i + 1);
             }
             i += 1;
         }
